@@ -1,8 +1,10 @@
 #!/bin/bash
-# tools/canon_patch_diff.sh <patch> [qual substring]  -- apply a patch to /repo, list the changed functions that are NOT recognised as equivalent
-# to their reference (with the diff of canonical forms), restore /repo
-cd /repo || exit 2
-[ -n "$(git status --porcelain --untracked-files=no)" ] && { echo "/repo not clean"; exit 2; }
-git apply "$1" || exit 2
-for f in $(git diff --name-only | grep '^pyrex/.*\.py$'); do /verif/tools/canon_diff.py $f none "${2:-}" 2>/dev/null; done
-git checkout -- .
+# tools/canon_patch_diff.sh <patch> [qual substring]  -- apply a patch to a scratch copy of /repo (never to /repo itself) and list the changed
+# functions that are NOT recognised as equivalent to their reference (with the diff of canonical forms)
+patch="$(readlink -f "$1")"
+base=/dev/shm; [ -w "$base" ] || base=/var/tmp
+wt=$(mktemp -d "$base/pvx_scratch_XXXXXX") || exit 2
+trap 'rm -rf "$wt"' EXIT
+cp -r /repo/pyrex /repo/setup.py "$wt"/
+( cd "$wt" && git apply --include='pyrex/*' --include=setup.py "$patch" ) || exit 2
+for f in $(grep '^+++ b/pyrex/.*\.py$' "$patch" | sed 's,^+++ b/,,' | sort -u); do PVX_ROOT="$wt" /verif/tools/canon_diff.py $f none "${2:-}" 2>/dev/null; done
